@@ -1529,6 +1529,8 @@ class Interp:
         if isinstance(b, ExtV):
             if attr == "pi" and b.name in ("math", "numpy"):
                 return Num(Poly.sym("pi"))
+            if attr == "tau" and b.name == "math":
+                return Num(Poly.sym("pi") * Poly.const(2))
             if attr in ("inf", "nan") and b.name in ("math", "numpy"):
                 return Num(Poly.sym(attr))
             return ExtV(f"{b.name}.{attr}")
